@@ -80,7 +80,21 @@ class Ctx:
                         self.wires[nm.strip()] = int(v)
 
 
-def build_checked(tree, cx, vars_, errors):
+def apply_op(t, a, b, style):
+    """a + b / a - b / a * k / -a, written as an operator or called as the special method (an operation table
+    OPS['add'](x, y) = Class.__add__, a bound method handed to map(), the operator module)"""
+    import operator
+    if style == "dunder":
+        cls = type(a)
+        return {"add": cls.__add__, "sub": cls.__sub__, "mul": cls.__mul__}[t](a, b) if t != "neg" else cls.__neg__(a)
+    if style == "bound":
+        return {"add": a.__add__, "sub": a.__sub__, "mul": a.__mul__}[t](b) if t != "neg" else a.__neg__()
+    if style == "operator":
+        return {"add": operator.add, "sub": operator.sub, "mul": operator.mul}[t](a, b) if t != "neg" else operator.neg(a)
+    return a + b if t == "add" else a - b if t == "sub" else a * b if t == "mul" else -a
+
+
+def build_checked(tree, cx, vars_, errors, style="op"):
     """build with immutability snapshots around every operation"""
     mod = cx.mod
     t = tree[0]
@@ -91,18 +105,25 @@ def build_checked(tree, cx, vars_, errors):
     if t == "zero":
         return mod.zero()
     if t in ("add", "sub"):
-        a = build_checked(tree[1], cx, vars_, errors)
-        b = build_checked(tree[2], cx, vars_, errors)
+        a = build_checked(tree[1], cx, vars_, errors, style)
+        b = build_checked(tree[2], cx, vars_, errors, style)
         ra, rb = rep(a), rep(b)
-        r = a + b if t == "add" else a - b
+        if style == "dunder":
+            # called right here: the operand objects are referenced by this frame's variables only, as in OPS['add'](x, y)
+            r = type(a).__add__(a, b) if t == "add" else type(a).__sub__(a, b)
+        else:
+            r = apply_op(t, a, b, style)
         if rep(a) != ra or rep(b) != rb:
             errors.append("%s altered an operand" % t)
         if r is a or r is b:
             errors.append("%s returned one of its operands" % t) if (rep(r) != ra and rep(r) != rb) else None
         return r
-    a = build_checked(tree[1], cx, vars_, errors)
+    a = build_checked(tree[1], cx, vars_, errors, style)
     ra = rep(a)
-    r = -a if t == "neg" else a * tree[2]
+    if style == "dunder":
+        r = type(a).__neg__(a) if t == "neg" else type(a).__mul__(a, tree[2])
+    else:
+        r = apply_op(t, a, tree[2] if t == "mul" else None, style)
     if rep(a) != ra:
         errors.append("%s altered its operand" % t)
     if t == "mul" and isinstance(tree[2], bool):
@@ -169,7 +190,7 @@ def judge(cx, case):
     if case.get("unobserved"):
         lc = build_plain(case["tree"], cx, vars_)        # operands are looked at again only after the result was evaluated
     else:
-        lc = build_checked(case["tree"], cx, vars_, errors)
+        lc = build_checked(case["tree"], cx, vars_, errors, case.get("style", "op"))
     want = backends.eval_tree(case["tree"], [v for _, v in case["vars"]], p)
     got = cx.value(lc, None)
     if [rep(v) for v in vars_] != before:
@@ -271,7 +292,7 @@ def algebra_shard(name, seed, n_examples):
                     t = ["sub", t, ["mul", ["mul", ["mul", t, draw(sc)], draw(sc)], draw(sc)]]
                 elif k_ == 4:
                     t = ["neg", ["neg", t]]
-            case = {"config": name, "part": "algebra", "vars": vars_, "tree": t, "unobserved": draw(st.booleans())}
+            case = {"config": name, "part": "algebra", "vars": vars_, "tree": t, "unobserved": draw(st.booleans()), "style": draw(st.sampled_from(["op", "op", "dunder", "bound", "operator"]))}
             vs = vars_in(t, [])
             nt = depth(t) >= 2 and len(vs) != len(set(vs)) and any(not 0 <= s < p for s in scalars_in(t, []))
             msg = judge(cx, case)
